@@ -13,6 +13,8 @@ into a normalised statement string (locals numbered by first declaration; types,
     `td2` = the deferred `v7()`, which runs whether `td1` returns or panics (`Cfg.upPanic`).
   * detachOn — the same producer without `complete`; consumer `range(ch){process…}` = `stepCons`
     `recv`/`hold`; teardown `defer v9(); v10.Unsubscribe()` = `td1` then the deferred `td2`.
+    (since /repo 2d51ab1 the goroutine body of ToChannel runs under `recoverUnhandledError`: a teardown panic
+    re-raised on it goes to the unhandled hook — the model's `escaped` stays empty, as for detachOn.)
   * FromChannel — `for { select { case item, ok := <-in … ; case <-done: return } }` = `fstepCons`
     / `fstepQuit`; teardown `close(done)` = `closeDone`.
 A change of order or kind of these statements makes this `rfl` fail at `lake build` even when
@@ -22,7 +24,7 @@ namespace Ro.Chan
 
 def expectedShapes : List (String × String) := [
   ("ToChannel",
-   "v5:=make(type,v1);v6:=lit;v7:=func{v6.Do(func{close(v5)})};v8:=NewSubscription(nil);go func{time.Sleep((1*time.Millisecond));v8.AddUnsubscribable(v2.SubscribeWithContext(v3,NewObserverWithContext(func{send(v5,NewNotificationNext(v10))},func{send(v5,NewNotificationError(v11));v7();v4.CompleteWithContext(v9)},func{send(v5,NewNotificationComplete());v7();v4.CompleteWithContext(v9)})))}();v4.NextWithContext(v3,v5);return(func{defer v7();v8.Unsubscribe()})"),
+   "v5:=make(type,v1);v6:=lit;v7:=func{v6.Do(func{close(v5)})};v8:=NewSubscription(nil);go recoverUnhandledError(func{time.Sleep((1*time.Millisecond));v8.AddUnsubscribable(v2.SubscribeWithContext(v3,NewObserverWithContext(func{send(v5,NewNotificationNext(v10))},func{send(v5,NewNotificationError(v11));v7();v4.CompleteWithContext(v9)},func{send(v5,NewNotificationComplete());v7();v4.CompleteWithContext(v9)})))});v4.NextWithContext(v3,v5);return(func{defer v7();v8.Unsubscribe()})"),
   ("detachOn",
    "v7:=make(type,v1);v8:=lit;v9:=func{v8.Do(func{close(v7)})};v10:=NewSubscription(nil);v14:=func{v10.AddUnsubscribable(v4.SubscribeWithContext(v5,NewObserverWithContext(func{send(v7,lo.T2(v11,NewNotificationNext(v12)))},func{send(v7,lo.T2(v11,NewNotificationError(v13)));v9()},func{send(v7,lo.T2(v11,NewNotificationComplete()));v9()})))};v16:=func{range(v7){processNotificationWithContext(v15.A,v15.B,v6.NextWithContext,v6.ErrorWithContext,v6.CompleteWithContext)}};switch(){case(v2):{go recoverUnhandledError(func{v14()});v16()};case(v3):{go recoverUnhandledError(func{v16()});v14()};default:{panic(ErrDetachOnWrongMode)}};return(func{defer v9();v10.Unsubscribe()})"),
   ("FromChannel",
